@@ -33,6 +33,7 @@ func basicType() parsec.Parser {
 		parsec.Token(`str\b`, ""),
 		parsec.Token(`obj\b`, ""),
 		parsec.Token(`any\b`, ""),
+		parsec.Token(`nothing\b`, ""),
 		parsec.Token(`unknown\b`, ""))
 }
 
@@ -68,7 +69,8 @@ func tupleType(ctx *Context) parsec.Parser {
 	return parsec.And(
 		nodifyTuple,
 		parsec.Atom("Tuple<", "Tuple<"),
-		parsec.Many(
+		// Kleene: "Tuple<>" is the empty tuple.
+		parsec.Kleene(
 			nodifyList,
 			ctx.typeParser,
 			parsec.Atom(",", ","),
@@ -670,6 +672,8 @@ func nodifyBasicType(nodes []signature.Node) signature.Node {
 		return signature.NewBoolType()
 	case "any":
 		return signature.NewValueType()
+	case "nothing":
+		return signature.NewVoidType()
 	case "obj":
 		return signature.NewObjectType()
 	case "unknown":
